@@ -73,20 +73,19 @@ theorem noh_post_energy (p : Noh.P) (r t : ℝ) :
 /-- pre-shock converging flow (leaf 1): mass balance, for the documented u₀ < 0 -/
 theorem noh_pre_mass (p : Noh.P) (r t : ℝ) (hr : 0 < r) (ht : 0 ≤ t) (hu : p.u0 < 0) :
     massRes (Noh.L1.density p) (Noh.L1.velocity p) (p.geometry - 1) r t = 0 := by
-  have hb : 0 < (1 : ℝ) + |p.u0| * t / r := by positivity
   unfold massRes dr dt
-  rw [(Noh.L1.density_hasDerivAt_t p r t hb).deriv, (Noh.L1.density_hasDerivAt_r p r t hr.ne' hb).deriv,
-    (Noh.L1.velocity_hasDerivAt_r p r t).deriv]
+  epv_hydro_rw_derivs [Noh.L1.density_hasDerivAt_t p r t, Noh.L1.density_hasDerivAt_r p r t,
+    Noh.L1.velocity_hasDerivAt_r p r t]
   simp only [epv_deriv, epv_leaf]
-  rw [abs_of_neg hu] at hb ⊢
-  have hp := Real.rpow_pos_of_pos hb (p.geometry - 1)
-  generalize p.u0 = u0 at hu hb hp ⊢
+  -- |u₀| = -u₀ =: v > 0
+  rw [abs_of_neg hu]
+  generalize p.u0 = u0 at hu ⊢
   obtain ⟨v, rfl⟩ : ∃ v, u0 = -v := ⟨-u0, by ring⟩
   have hv : 0 < v := by linarith
-  simp only [neg_neg] at hb hp ⊢
-  generalize ((1 : ℝ) + v * t / r) ^ (p.geometry - 1) = q at hp ⊢
+  simp only [neg_neg]
+  epv_hydro_gen_rpow
   have hb' : r + v * t ≠ 0 := by positivity
-  field_simp
+  epv_hydro_field_simp
   ring
 
 example : ∃ p : Noh.P, ∃ r t : ℝ, 0 < r ∧ 0 ≤ t ∧ p.u0 < 0 :=
